@@ -3,7 +3,7 @@
 import sys, time
 sys.path.insert(0, '/verif')
 from rules import driver, absint
-from props import common
+from props import common, memsafe
 
 def main():
     args = sys.argv[1:]
@@ -23,7 +23,7 @@ def main():
             if only and fn.name not in only:
                 continue
             t = time.time()
-            a = absint.Analysis(fn).run()
+            a = absint.Analysis(fn, pairs=memsafe.pairs_for(fn)).run()
             dt = time.time() - t
             for o in a.obligations:
                 tot[o['status']] += 1
